@@ -88,17 +88,25 @@ def route (cfg : WCfg) (opcode : Nat) (compress : Nat) (len : Nat) : ZCall :=
 def afterSend (cfg : WCfg) (w : WS) : WS :=
   if w.outputSize > cfg.limit then { w with outputSize := 0 } else w
 
+/-- what goes into the frame: the message itself with RSV1 clear, or the compressor output
+without its `00 00 ff ff` tail with RSV1 set -/
+def framePlan (cfg : WCfg) (message : Bytes) (opcode compress : Nat) (zout : Bytes) : Bytes × Nat :=
+  match route cfg opcode compress message.length with
+  | .plain => (message, 0)
+  | _ => (stripTrailing zout, 0x40)
+
 /-- `send_frame(message, opcode, compress)` with the compressor output `zout` given -/
 def sendFrameZ (cfg : WCfg) (w : WS) (message : Bytes) (opcode compress : Nat)
     (maskKey zout : Bytes) : WS × Option WErr :=
   if w.closing ∧ opcode &&& 8 = 0 then (w, some .reset)
   else
-    let r := match route cfg opcode compress message.length with
-      | .plain => writeFrame cfg w message opcode 0 maskKey
-      | _ => writeFrame cfg w (stripTrailing zout) opcode 0x40 maskKey
-    match r with
+    let plan := framePlan cfg message opcode compress zout
+    match writeFrame cfg w plan.1 opcode plan.2 maskKey with
     | .error e => (w, some e)
-    | .ok w' => (afterSend cfg w', none)
+    | .ok w' =>
+      -- `if opcode == WSMsgType.CLOSE: self._closing = True` (present iff the generated flag says so)
+      let w'' := if Gen.C11.closeLatchesInSendFrame ∧ opcode = 8 then { w' with closing := true } else w'
+      (afterSend cfg w'', none)
 
 /-- `close(code, message)`: CLOSE frame, then `_closing = True` whatever happened -/
 def closeZ (cfg : WCfg) (w : WS) (code : Nat) (message maskKey : Bytes) : WS × Option WErr :=
